@@ -26,6 +26,71 @@ def pregen(chk):
     if bad:
         chk.broken.append("lock/read/write skeleton of encoding/osm changed in: " + ", ".join(bad) +
                           " (model atomic steps were derived from harness/cmd/c18/skeleton.expected)")
+    t1(chk, gobin)
+
+
+TIES = {  # tie lemma -> the Go function(s) it ties (lean/GeomV/C18/Tie.lean)
+    "tie_Empty": "(*Bounds).Empty", "tie_Overlaps": "(*Bounds).Overlaps", "tie_PointBounds": "NewBoundsPoint / Point.Bounds",
+    "tie_Overlaps_point": "b.Overlaps(Point{X,Y}.Bounds()) = closed rectangle", "tie_hasTag": "hasTag",
+    "tie_hasNeedNode": "hasNeedNode", "tie_hasNeedWay": "hasNeedWay", "tie_hasNeedRelation": "hasNeedRelation",
+    "tie_KeepAll": "KeepAll", "tie_KeepTags": "KeepTags", "tie_KeepBounds": "KeepBounds", "tie_Check": "Check",
+}
+SRC = ["C18_provided_keeps_src", "C18_check_src"]
+
+
+def t1(chk, gobin):
+    """T1: regenerate lean/GeomV/C18/Gen.lean from encoding/osm/{keep,check,extract}.go, bounds.go, point.go of the tree
+    under test (written only when it changed) and pre-build the tie under the lake lock.  A function that left the
+    translatable subset, or a tie lemma that no longer holds, is a broken tie naming the Go function; GeomV.C18.Tie is
+    then left out of the main build so that the theorems about the model are still checked."""
+    import re
+    cfg = chk.cfg
+    T_ = "GeomV.C18.Tie"
+
+    def drop(why):
+        cfg["lean_modules"] = [m for m in cfg["lean_modules"] if not m.startswith(T_)]
+        chk.broken.append(why)
+
+    gen = os.path.join(vcheck.LEAN, "GeomV", "C18", "Gen.lean")
+
+    def write(text):
+        old = open(gen).read() if os.path.exists(gen) else ""
+        if old != text:
+            with open(gen + ".tmp", "w") as f:
+                f.write(text)
+            os.replace(gen + ".tmp", gen)
+
+    p = subprocess.run([gobin, "t1", vcheck.REPO], stdout=subprocess.PIPE, stderr=subprocess.PIPE, text=True)
+    if p.returncode not in (0, 3) or not p.stdout.startswith("import"):
+        drop("T1 tie: extractor failed: " + p.stderr.strip()[-300:])
+        return
+    with vcheck.Lock("lake"):
+        write(p.stdout)
+        if p.returncode == 3:
+            drop("T1 tie: Go function(s) outside the translatable subset: " + " | ".join(p.stderr.strip().splitlines())[:900])
+            return
+        b = subprocess.run(["lake", "build", T_], cwd=vcheck.LEAN, stdout=subprocess.PIPE, stderr=subprocess.STDOUT, text=True)
+    if b.returncode == 0:
+        return
+    open(os.path.join(chk.rundir, "tie.log"), "w").write(b.stdout)
+    errs = re.findall(r"error: (?:\./)?GeomV/C18/(Gen|Tie)\.lean:(\d+):\d+: (.*)", b.stdout)
+    if any(f == "Gen" for f, _, _ in errs) or not errs:
+        drop("T1 tie: the regenerated Gen.lean does not elaborate: " + " | ".join(m for f, _, m in errs if f == "Gen")[:600]
+             + ("" if errs else b.stdout[-600:]))
+        return
+    src = open(os.path.join(vcheck.LEAN, "GeomV", "C18", "Tie.lean")).read().split("\n")
+    bad = []
+    for _, ln, _ in errs:
+        name = "?"
+        for i in range(min(int(ln), len(src)) - 1, -1, -1):
+            m = re.match(r"theorem (\w+)", src[i])
+            if m:
+                name = m.group(1)
+                break
+        if name not in bad:
+            bad.append(name)
+    drop("T1 tie: the Go source no longer matches the model — tie lemma(s) that fail on the regenerated definitions: "
+         + ", ".join("%s (%s)" % (n, TIES.get(n, "helper")) for n in bad))
 
 def post(chk, pairs, stats):
     """thorough tier: side check of the atomicity assumption — rebuild the harness with the Go race detector and
@@ -63,7 +128,7 @@ def post(chk, pairs, stats):
 
 CFG = {
     "id": "C18",
-    "lean_modules": ["GeomV.C18.Proofs", "GeomV.C18.ProofsObs"],
+    "lean_modules": ["GeomV.C18.Proofs", "GeomV.C18.ProofsObs", "GeomV.C18.Tie"],
     "lean_dirs": ["C18"],
     "exe": "geomv_c18",
     "go_cmd": "c18",
@@ -81,7 +146,7 @@ CFG = {
         "specKeep_bounds", "specKeep_tags", "specKeep_all", "C18_provided_keeps",
         "C18_need_exact", "C18_roots_spec", "C18_observers_schedule_independent", "C18_filter_observers",
         "C18_geom_no_dropped_point", "C18_cancel_no_partial_result",
-    ]],
+    ] + list(TIES) + SRC],
     "trusted_base": [
         "Lean 4.33.0 kernel; axioms of every theorem printed by #print axioms must be within {propext, Classical.choice, Quot.sound}",
         "model lean/GeomV/C18/Model.lean is tied to /repo/encoding/osm/{extract,keep,check}.go by the correspondence run on every check: "
